@@ -225,12 +225,12 @@ pub fn spec(id: &str, tier: Tier) -> Option<Spec> {
             families: {
                 let q = |a: u64, b: u64| tier.pick(a, b);
                 vec![
-                    fam("rect", q(3000, 100_000), true, || strat::case(strat::rect_shape(4, 4, false), false)),
-                    fam("oct", q(3000, 100_000), true, || strat::case(strat::oct_shape(3, 3), false)),
-                    fam("aff-oct", q(600, 25_000), true, || strat::case(strat::oct_shape(3, 3), true)),
-                    fam("gen", q(1000, 25_000), true, || strat::case(strat::gen_shape(), false)),
-                    fam("fan", q(600, 25_000), true, || strat::case(strat::fan_shape(), false)),
-                    fam("flat-oct", q(400, 15_000), true, || strat::flat_case(3, 3, 30)),
+                    fam("rect", q(3000, 400_000), true, || strat::case(strat::rect_shape(4, 4, false), false)),
+                    fam("oct", q(3000, 400_000), true, || strat::case(strat::oct_shape(3, 3), false)),
+                    fam("aff-oct", q(600, 100_000), true, || strat::case(strat::oct_shape(3, 3), true)),
+                    fam("gen", q(1000, 60_000), true, || strat::case(strat::gen_shape(), false)),
+                    fam("fan", q(600, 100_000), true, || strat::case(strat::fan_shape(), false)),
+                    fam("flat-oct", q(400, 60_000), true, || strat::flat_case(3, 3, 30)),
                 ]
             },
             spaces: vec![],
